@@ -1,3 +1,4 @@
 // further harness modules
 pub(crate) mod util;
 mod h_alloc;
+mod h_names;
